@@ -307,7 +307,9 @@ pub fn local_scenario(r: &mut Rng) -> Scenario {
     let qname = crate::streams::zone::query_name(r, &owners, &DomainName::root_domain());
     let qt: u16 = *r.pick(&[1u16, 1, 1, 28, 5, 2, 16, 255, 15, 6, 252, 253, 254]);
     #[allow(unused_mut)]
-    let question = Question { name: qname.clone(), qtype: QueryType::from(qt), qclass: QueryClass::Record(RecordClass::IN) };
+    // QCLASS * (255) is a legitimate question class: it asks about every class, i.e. here about IN
+    let qclass = if r.chance(1, 8) { QueryClass::Wildcard } else { QueryClass::Record(RecordClass::IN) };
+    let question = Question { name: qname.clone(), qtype: QueryType::from(qt), qclass };
     // cache: records for the question name / owners, possibly conflicting with zone data
     let mut cache_rrs = Vec::new();
     for _ in 0..r.below(4) {
@@ -405,8 +407,20 @@ pub fn chain_scenario(r: &mut Rng) -> Scenario {
     let question = Question {
         name: names[0].clone(),
         qtype: QueryType::from(*r.pick(&[1u16, 1, 1, 16, 5, 255])),
-        qclass: QueryClass::Record(RecordClass::IN),
+        qclass: if r.chance(1, 6) { QueryClass::Wildcard } else { QueryClass::Record(RecordClass::IN) },
     };
+    if cyc && matches!(m, Mode::Fwd(_)) && r.chance(1, 2) {
+        // a loop made of local links, and a forwarder that would happily answer for the looping names:
+        // a question refused as a loop is not "unknown locally" - it must not be forwarded
+        if let Mode::Fwd(sa) = &m {
+            for nme in names.iter().take(len.min(3)) {
+                let qq = Question { name: nme.clone(), qtype: question.qtype, qclass: question.qclass };
+                let mut reply = reply_to(&qq);
+                reply.answers.push(rr(nme, data_for(r, u16::from(question.qtype)), 60));
+                script.push(Entry { addr: sa.ip(), tcp: false, qname: nme.clone(), qtype: u16::from(question.qtype), delay_ms: 3, reply: Reply::Msg { m: reply, same_id: true } });
+            }
+        }
+    }
     let mut m = m;
     if tail_upstream {
         let fwd = SocketAddr::new(IpAddr::V4(Ipv4Addr::new(192, 0, 2, 53)), 53);
@@ -798,7 +812,7 @@ fn gen_universe(r: &mut Rng, single_ns: bool, dual: bool) -> Universe {
                     let tz = 1 + r.below(nzones - 1);
                     // mostly h0 (always an address); sometimes an earlier h<k'>, which may itself be an
                     // alias: chains of several aliases across zones, never a loop (k' < k)
-                    let tk = if k > 1 && r.chance(1, 2) { r.below(k) } else { 0 };
+                    let tk = if k > 0 && r.chance(2, 3) { r.below(k + 1).min(k - 1).max(if k > 1 { 1 } else { 0 }) } else { 0 };
                     let mut tl = vec![lbl(format!("h{tk}").as_bytes())];
                     tl.extend(zones[tz].apex.labels.iter().cloned());
                     let target = DomainName::from_labels(tl).unwrap();
@@ -860,7 +874,13 @@ fn universe_script(u: &Universe, questions: &[Question]) -> Vec<Entry> {
                         t.answers.clear();
                         t.authority.clear();
                         t.additional.clear();
-                        script.push(Entry { addr: *a, tcp: false, qname: q.name.clone(), qtype: u16::from(q.qtype), delay_ms: 7, reply: Reply::Msg { m: t, same_id: true } });
+                        // … or the datagram is unusable altogether (cut at 512 octets inside a record: it does
+                        // not parse) - whatever the UDP attempt gave, TCP is tried next
+                        let udp_reply = match (q.name.labels.len() + u16::from(q.qtype) as usize) % 3 {
+                            0 => Reply::Garbage,
+                            _ => Reply::Msg { m: t, same_id: true },
+                        };
+                        script.push(Entry { addr: *a, tcp: false, qname: q.name.clone(), qtype: u16::from(q.qtype), delay_ms: 7, reply: udp_reply });
                         script.push(Entry { addr: *a, tcp: true, qname: q.name.clone(), qtype: u16::from(q.qtype), delay_ms: 9, reply: Reply::Msg { m, same_id: true } });
                         continue;
                     }
